@@ -3,7 +3,7 @@
    to a guarded global and every guarded call happens while the guard is held, on every path of every
    thread-safe public function and of the three internal threads. *)
 From Coq Require Import List Arith Bool.
-From LB Require Import LockLang LockCfg LockProofs LockSem.
+From LB Require Import LockLang LockCfg LockProofs LockSem LockExcl.
 Import ListNotations.
 
 Definition threadsafe_path (p : list act) : Prop :=
@@ -28,7 +28,25 @@ Theorem C10_invariant_all_schedules : forall (tps : list (list (list act))) c,
 Proof. exact threadsafe_inv. Qed.
 Print Assumptions C10_invariant_all_schedules.
 
+(* mutual exclusion, all schedules: in every configuration reachable by any interleaving of threads
+   running thread-safe API calls and the internal threads (mutexes/write locks exclusive, read locks
+   shared), two different threads are never both about to access data guarded by the same mutex
+   (a lock the source only ever takes exclusively): no data race on mutex-guarded state *)
+Theorem C10_mutual_exclusion : forall (tps : list (list (list act))) pre t mid t' post l g g' p p',
+  Forall (Forall threadsafe_path) tps ->
+  reach rank guard (map fresh_thread tps) (pre ++ t :: mid ++ t' :: post) ->
+  excl_only l = true -> guard g = Some l -> guard g' = Some l ->
+  th_prog t = AAcc g :: p -> th_prog t' = AAcc g' :: p' -> False.
+Proof. exact mutex_mutual_exclusion. Qed.
+Print Assumptions C10_mutual_exclusion.
+
+(* at most one exclusive holder per lock, and an exclusive holder excludes every other holder
+   (rwlocks included), in every reachable configuration *)
+Theorem C10_exclusive_holder : forall c c', Inv rank guard c -> Excl c -> reach rank guard c c' -> Excl c'.
+Proof. exact (Excl_reach rank guard). Qed.
+Print Assumptions C10_exclusive_holder.
+
 Example C10_guards_nonvacuous :
   length (filter (fun g => match g with Some _ => true | None => false end) guard_tab) = length guard_tab /\
-  (10 <= length guard_tab) /\ (100 <= length threadsafe_entries).
+  (10 <= length guard_tab) /\ (100 <= length threadsafe_entries) /\ (10 <= length mutex_ids).
 Proof. vm_compute. repeat split; repeat constructor. Qed.
